@@ -21,7 +21,8 @@ import io
 from vp.ref import pyexec
 
 # kinds whose final top-level statement is an expression with a non-None value
-VALUED = {'valexpr', 'valstr', 'vallist', 'valdict', 'valcall', 'valawait', 'valsemi', 'valtuple_ml', 'valbytes'}
+VALUED = {'valexpr', 'valstr', 'vallist', 'valdict', 'valcall', 'valawait', 'valsemi', 'valtuple_ml', 'valbytes', 'val_after_inline_directive',
+          'val_with_inline_directive'}
 
 SIMPLE_KINDS = [
     'call', 'assign', 'print', 'valexpr', 'print2', 'mlist', 'if', 'for', 'def', 'comment', 'semi', 'valstr',
@@ -30,7 +31,8 @@ SIMPLE_KINDS = [
     'asyncwith', 'aug', 'ann', 'walrus', 'star', 'imp', 'assert', 'del', 'global', 'match', 'dirstr',
     'vallist', 'valdict', 'valcall', 'valawait', 'valsemi', 'valtuple_ml', 'valbytes', 'printblank',
     'tstr_blank', 'tstr_col0_dq', 'classdeco', 'tryfinally', 'forelse_print', 'genexpr', 'comment_after',
-    'stdout_ref', 'stdout_write_bound', 'tstr_trailing_ws',
+    'stdout_ref', 'stdout_write_bound', 'tstr_trailing_ws', 'print_inline_directive', 'val_after_inline_directive',
+    'val_with_inline_directive',
 ]
 
 
@@ -56,6 +58,13 @@ def make_group(k, kind):
         L = ["print('m{}',".format(k), '      {},'.format(t), "      sep='-')"]
     elif kind == 'tstr':
         L = ["v{} = ({}, '''line1 {}".format(k, t, k), '  line2', "line3''')"]
+    elif kind == 'print_inline_directive':
+        # inline directives that do not change what runs (they still make the parser cut parts)
+        L = ["print('d{}', {})  # xdoctest: +ELLIPSIS".format(k, t)]
+    elif kind == 'val_after_inline_directive':
+        L = ['w{} = ({} or 2)  # doctest: +NORMALIZE_WHITESPACE'.format(k, t), 'w{} + 1'.format(k)]
+    elif kind == 'val_with_inline_directive':
+        L = ['u{} = 5'.format(k), '({} or u{})  # xdoctest: +ELLIPSIS'.format(t, k)]
     elif kind == 'tstr_trailing_ws':
         # the first physical line of the statement ends in blanks that belong to the string
         L = ["v{} = ({}, '''alpha {}  ".format(k, t, k), "beta'''  )"]
